@@ -78,6 +78,13 @@ for p in files:
         elif op == 'ctrl':
             if l.strip() in ('return;', 'continue;', 'break;', 'return Ok(());', 'return Poll::Pending;', 'return Poll::Ready(Ok(()));', 'return Ok(None);', 'return None;', 'return Poll::Ready(None);'):
                 cands.append([rel, ln, l.strip(), ''])
+        elif op == 'delstmt':
+            # delete one simple statement (a call or an assignment on one line) in the files the first campaigns did not cover
+            scope = ('src/frame/', 'src/proto/streams/buffer.rs', 'src/proto/streams/store.rs', 'src/codec/mod.rs', 'src/client.rs', 'src/server.rs',
+                     'src/share.rs', 'src/proto/peer.rs', 'src/hpack/encoder.rs', 'src/proto/streams/flow_control.rs', 'src/proto/mod.rs')
+            st = l.strip()
+            if rel.startswith(scope) and st.endswith(';') and not st.startswith(('let ', 'return', 'use ', 'pub ', 'const ', 'type ', 'break', 'continue', '}', ')', ']', '.', '//', '#'))                     and (re.match(r'^[\w\.\*\[\]&]+(\(|\s*[\+\-\|&]?=\s)', st) or re.match(r'^[\w\.]+\.[\w]+\(.*\);$', st)) and st.count('(') == st.count(')'):
+                cands.append([rel, ln, st, ''])
         elif op == 'negate':
             m = re.match(r'^(\s*(?:\} else )?if )(?!let )(.+)( \{\s*)$', l)
             if m and ' let ' not in m.group(2):
